@@ -56,11 +56,13 @@ def podAt (p : Pod) (e : TraceEv) : PodSpecM :=
   { sp with aff := { required := sp.aff.required.drop k, preferred := sp.aff.preferred.drop kp }, tolerations := tol }
 
 open Karp.Sched in
-def replayWith (daemonPNS : Bool) (s : Scenario) (trace : List TraceEv) (absent : Absent := []) : Option String :=
-  let init : List (String × ExNode) := s.nodes.filterMap (fun n =>
+def replayWith (daemonPNS : Bool) (s : Scenario) (trace : List TraceEv) (absent : Absent := []) (limits : Limits := []) : Option String :=
+  -- each active node with the claims in use on it (`VolumeUsage`)
+  let init : List (String × ExNode × List String) := s.nodes.filterMap (fun n =>
     if n.deleting then none else
-      (Karp.Provision.viewNodeAbs daemonPNS ((absent.filter (·.1 == n.name)).map (·.2)) s n).map (fun ex => (n.name, ex)))
-  let rec go (st : List (String × ExNode)) : List TraceEv → Option String
+      (Karp.Provision.viewNodeAbs daemonPNS ((absent.filter (·.1 == n.name)).map (·.2)) s n).map (fun ex =>
+        (n.name, ex, Karp.Provision.volUnion [] (n.pods.flatMap (Karp.Provision.volumeKeys s)))))
+  let rec go (st : List (String × ExNode × List String)) : List TraceEv → Option String
     | [] => none
     | e :: rest =>
       match s.pod? e.ev.pod with
@@ -68,17 +70,19 @@ def replayWith (daemonPNS : Bool) (s : Scenario) (trace : List TraceEv) (absent 
       | some p =>
         let pd := podDOf s.ignorePreferences (podAt p e)
         let alts := Karp.Provision.volumeAlts (Karp.Provision.podVolumeTerms s p)
-        let existingCanAdd := fun (ex : ExNode) (pd : PodD) => Karp.Provision.existingCanAddV ex pd alts
+        let vols := Karp.Provision.volumeKeys s p
+        let canAdd := fun (name : String) (ex : ExNode) (used : List String) =>
+          Karp.Provision.existingCanAddV ex pd alts && !Karp.Provision.exceedsLimits (limits.lookup name) used vols
         match e.ev.kind with
         | .existing =>
           match st.lookup e.ev.target with
           | none => some s!"pod {p.name} was added to {e.ev.target}, which the model does not list among the active nodes"
-          | some ex =>
-            if !existingCanAdd ex pd then some s!"the scheduler added pod {p.name} to node {e.ev.target}; the model of ExistingNode.CanAdd refuses it there"
-            else go (st.map (fun (n, x) => if n == e.ev.target then (n, existingAdd x pd) else (n, x))) rest
+          | some (ex, used) =>
+            if !canAdd e.ev.target ex used then some s!"the scheduler added pod {p.name} to node {e.ev.target}; the model of ExistingNode.CanAdd refuses it there"
+            else go (st.map (fun (n, x, u) => if n == e.ev.target then (n, existingAdd x pd, Karp.Provision.volUnion u vols) else (n, x, u))) rest
         | _ =>
           if plain s p then
-            match st.find? (fun (_, ex) => existingCanAdd ex pd) with
+            match st.find? (fun (n, ex, used) => canAdd n ex used) with
             | some (n, _) => some s!"pod {p.name} went to a NodeClaim of the pass; the model of ExistingNode.CanAdd admits it on node {n} (guard of OpenNew violated in the model)"
             | none => go st rest
           else go st rest
@@ -86,10 +90,10 @@ def replayWith (daemonPNS : Bool) (s : Scenario) (trace : List TraceEv) (absent 
 
 /-- the daemon pods carry the PreferNoSchedule toleration iff some NodeClaimTemplate had instance types left (a side
     effect of building the overhead groups): the model allows either, consistently for the whole pass -/
-def replay (s : Scenario) (trace : List TraceEv) (absent : Absent := []) : Option String :=
-  match replayWith true s trace absent with
+def replay (s : Scenario) (trace : List TraceEv) (absent : Absent := []) (limits : Limits := []) : Option String :=
+  match replayWith true s trace absent limits with
   | none => none
-  | some w => if (replayWith false s trace absent).isNone then none else some w
+  | some w => if (replayWith false s trace absent limits).isNone then none else some w
 
 /-! ### the model's view of the in-flight nodes of a history (`allowed`) -/
 
@@ -153,12 +157,12 @@ structure Verdict where
 
 def Verdict.merge (a b : Verdict) : Verdict := { spec := a.spec <|> b.spec, model := a.model <|> b.model }
 
-def judgePass (s : Scenario) (p : PassObs) (absent : Absent := []) : Verdict :=
+def judgePass (s : Scenario) (p : PassObs) (absent : Absent := []) (limits : Limits := []) : Verdict :=
   if p.err != "" then {} else
   let cands := scenarioCandidates s p.out ++ (p.trace.filterMap (·.ev.claim)).flatMap (fun c => c.reqs.flatMap (fun (_, r) => r.values))
   let cands := cands.eraseDups
-  let specV := (traceConsistent p.out p.trace) <|> passOK s cands (p.trace.map (·.ev)) absent
-  { spec := specV.map (fun w => s!"{w} (pass at stage {p.stage})"), model := (replay s p.trace absent).map (fun w => s!"{w} (pass at stage {p.stage})") }
+  let specV := (traceConsistent p.out p.trace) <|> passOK s cands (p.trace.map (·.ev)) absent limits
+  { spec := specV.map (fun w => s!"{w} (pass at stage {p.stage})"), model := (replay s p.trace absent limits).map (fun w => s!"{w} (pass at stage {p.stage})") }
 
 def toResp (v : Verdict) (dflt : String) : Resp :=
   match v.spec with
@@ -180,8 +184,9 @@ def opRoom (inp impl : Json) : Except String Resp := do
   if absent.any (fun (n, _) => match s.node? n with | some nd => nd.managed | none => true) then
     throw "absent label on a managed or unknown node"
   if (fldOpt impl "panic").isSome then return { allowed := some false, spec := some false, why := "the scheduler panicked" }
+  let limits ← (← arrD inp "limits").mapM (fun j => do pure ((← strF j "node"), (← natF j "count")))
   let p ← passObs impl
-  pure (toResp (judgePass s p absent) "room")
+  pure (toResp (judgePass s p absent limits) "room")
 
 /-- `c04.history`: pass 1, creation, the gate, adversarial launch, and pass 2 at every lifecycle stage -/
 def opHistory (strict : Bool) (inp impl : Json) : Except String Resp := do
@@ -216,8 +221,12 @@ def opHistory (strict : Bool) (inp impl : Json) : Except String Resp := do
   -- what pass 1 placed on capacity that exists afterwards
   let launched ← arrD impl "launched"
   let mut onLaunched : List (String × List String) := []
+  let mut claimOf : List (String × Claim) := []
   for l in launched do
     onLaunched := onLaunched ++ [((← strF l "name"), (← listF asStr l "pods"))]
+    match p1.out.claims[(← intF l "claim").toNat]? with
+    | some c => if (← intF l "claim") ≥ 0 then claimOf := claimOf ++ [((← strF l "name"), c)]
+    | none => pure ()
   let placedBefore1 := p1.out.existing ++ onLaunched
   -- pass 2 at every stage
   for pj in (← arrD impl "passes") do
@@ -226,6 +235,17 @@ def opHistory (strict : Bool) (inp impl : Json) : Except String Resp := do
     let pv := judgePass s' p
     v := v.merge pv
     if !p.synced then v := v.merge { model := some s!"Cluster.Synced() is false at stage {p.stage} although every NodeClaim is launched" }
+    -- the launched node keeps what its NodeClaim promised to the pods it was opened for
+    if p.err == "" then
+      for n in p.nodes do
+        if n.deleting then continue
+        match claimOf.lookup n.name, onLaunched.lookup n.name with
+        | some c, some pods =>
+          match reopenedForLostLabel s' c (Karp.Spec.Admissible.nodeLabels s' n) pods p.out with
+          | some (pn, k) =>
+            v := v.merge { spec := some s!"[launch-labels] re-running provisioning at stage {p.stage} put pod {pn} on a new NodeClaim: NodeClaim {n.name}, opened for it in pass 1 with a requirement on {k} that needs the label, was launched without a label for {k} that the requirement admits (label: {(Karp.Spec.Admissible.nodeLabels s' n).lookup k}), so its in-flight node cannot take the pod back" }
+          | none => pure ()
+        | _, _ => pure ()
     match ← viewsAgree s' p.nodes p.views with
     | some w => v := v.merge { model := some w }
     | none => pure ()
@@ -389,6 +409,51 @@ def opSynced (inp impl : Json) : Except String Resp := do
   | none => pure { model := some model, spec := some true }
 
 
+/-! ### `c04.mark`: the deletion mark -/
+
+open Karp.Provision in
+def markEvOf (op : String) : Except String (MarkEv × String × List String) := do
+  let parts := op.splitOn ":"
+  let kind := parts.head!
+  let arg := (parts.drop 1).headD ""
+  let ids := (arg.splitOn ",").filter (· != "")
+  match kind with
+  | "see-node" => pure (.seeNode arg, kind, [])
+  | "see-claim" => pure (.seeClaim arg, kind, [])
+  | "del-node" => pure (.delNode arg, kind, [])
+  | "del-claim" => pure (.delClaim arg, kind, [])
+  | "mark" => pure (.mark ids, kind, ids)
+  | "unmark" => pure (.unmark ids, kind, ids)
+  | _ => throw s!"bad op {op}"
+
+open Karp.Provision in
+def opMark (inp impl : Json) : Except String Resp := do
+  if (fldOpt impl "panic").isSome then return { allowed := some false, spec := some false, why := "cluster state panicked" }
+  let ops ← listF asStr inp "ops"
+  let names := ["a", "b", "c"]
+  let mut st : MarkSt := []
+  let mut obs : List Json := []
+  let mut evs : List (String × List String) := []
+  for op in ops do
+    let (ev, kind, ids) ← markEvOf op
+    st := markStep st ev
+    let pick (f : String → Bool) : Json := jArr ((names.filter f).map jStr)
+    obs := obs ++ [jObj [("tracked", pick st.tracked), ("marked", pick st.marked), ("active", pick (fun n => st.active.contains n)),
+                         ("deleting", pick (fun n => st.deleting.contains n))]]
+    evs := evs ++ [(kind, ids)]
+  let model := jObj [("obs", jArr obs)]
+  let view (j : Json) : Except String MarkView := do
+    pure { tracked := ← listF asStr j "tracked", marked := ← listF asStr j "marked", active := ← listF asStr j "active", deleting := ← listF asStr j "deleting" }
+  let iObs ← (← arrD impl "obs").mapM view
+  let mut before : MarkView := { tracked := [], marked := [], active := [], deleting := [] }
+  let mut why : Option String := none
+  for ((kind, ids), after) in evs.zip iObs do
+    if why.isNone then
+      why := (markJudge before after kind ids).map (fun w => s!"{w} (event {kind}:{ids})")
+    before := after
+  pure { model := some model, spec := some why.isNone, why := why.getD "",
+         extra := why.map (fun w => jObj [("signature", jStr (sigOf w "mark"))]) }
+
 /-! ### `c04.account`: which pods a node is charged for, over histories of API changes and informer deliveries -/
 
 namespace Acct
@@ -517,6 +582,7 @@ def handle : Handler := fun op inp impl =>
   | "c04.pass" => opPass inp impl
   | "c04.view" => opView inp impl
   | "c04.synced" => opSynced inp impl
+  | "c04.mark" => opMark inp impl
   | "c04.account" => opAccount inp impl
   | "c04.churn" => opChurn inp impl
   | "c04.room" => opRoom inp impl
